@@ -21,6 +21,7 @@ func checkC09(p *load.Program, r *kit.Report) {
 		}, "MAIN-FILE-SHAPE", "MERGE-SHAPE", "CONST-TABLE")
 	r.NotDecided = "behaviour after particular consolidation/prune/reload histories (which branch object a header ends up in); the assumption that every hash left only in Repository.heights is on the best chain; equality of memory- and storage-served ranges as values."
 	r.Rule("HEIGHT-LABEL", "every hash→height label stored into Branch.heightsMap / Repository.heights equals the positional height parentHeight+offset+index of the labelled header (linear arithmetic over SSA; counters by lockstep induction; constructors summarised)", 11)
+	r.Rule("TIP-BOUND", "header(), Hash() and GetHeaders() fall back to the header files only for heights that were compared with the tip (height <= longest.Height()); stale entries above the tip are never served", 3)
 	r.Rule("PRUNE-TRIPLE", "Prune deletes heightsMap entries of headers[:count], keeps headers[count:] and adds count to offset — the same count", 1)
 	r.Rule("SHRINK-SIBLING", "every function that re-slices Branch.headers also deletes the dropped hashes from heightsMap", 2)
 	r.Rule("FLAG-RULE", "the in-most-work-chain flag of CheckHeader/GetHeader on the in-memory arm is decided by repo.longest.AtHeight(height).Hash.Equal(&hash), never by identity of the containing branch", 2)
@@ -310,6 +311,62 @@ func checkStorageReaders(p *load.Program, r *kit.Report) {
 				bad = "record index is " + idx.String() + ", want height - " + fmt.Sprint(per) + "·(height/" + fmt.Sprint(per) + ")"
 			}
 		})
+		// TIP-BOUND: the storage fallback is reached only for heights up to the tip. The files keep
+		// what an earlier save wrote until the next save: after the tip moved down (a trim) they
+		// still hold the removed headers.
+		{
+			longestF := p.Field(H, "Repository", "longest")
+			badT := ""
+			for _, c := range kit.CallsTo(f, H+".Repository.getData") {
+				call := c.(*ssa.Call)
+				fileAtom := lin.Of(call.Call.Args[2]).String()
+				var pass []kit.Edge
+				for _, g := range kit.FindGuards(f, func(cv ssa.Value) (bool, bool) {
+					b, ok := cv.(*ssa.BinOp)
+					if !ok {
+						return false, false
+					}
+					isTip := func(v ssa.Value) bool {
+						hc := isCallTo(v, H+".Branch.Height")
+						return hc != nil && recvIsField(hc.Call.Args[0], longestF)
+					}
+					x, y, op := b.X, b.Y, b.Op
+					if isTip(x) { // tip OP h  →  h OP' tip
+						x, y = y, x
+						switch op {
+						case token.LSS:
+							op = token.GTR
+						case token.LEQ:
+							op = token.GEQ
+						case token.GTR:
+							op = token.LSS
+						case token.GEQ:
+							op = token.LEQ
+						}
+					}
+					if !isTip(y) {
+						return false, false
+					}
+					h := lin.Of(x)
+					if !h.OK || "("+h.String()+")"+fmt.Sprintf("/(%d)", per) != fileAtom {
+						return false, false
+					}
+					switch op {
+					case token.LEQ:
+						return true, true
+					case token.GTR:
+						return true, false
+					}
+					return false, false
+				}) {
+					pass = append(pass, g.PassEdge())
+				}
+				if d, path := kit.DominatedByEdges(f, call, pass, nil, p.Pos); !d || len(pass) == 0 {
+					badT = "the header file is read for a height that was not compared with the tip (height <= repo.longest.Height()): above the tip the file can still hold headers that were removed from the chain: " + path
+				}
+			}
+			r.Check(badT == "", "TIP-BOUND", name+"/storage-only-up-to-tip", posOf(p, f.Blocks[0].Instrs[0]), "getData only behind height <= longest.Height()", badT)
+		}
 		if n == 0 && bad == "" {
 			bad = "no getData(file) call"
 		}
